@@ -70,7 +70,8 @@ def run(tier, seed, replay=None):
                     {k: ev[k] for k in ev if k in ("pos", "to", "len", "version", "art")})
             else:
                 sig = {"kind": ev["e"], "impl": ev.get("impl")}
-                detail = "CRC-64 of message %s by %s is not the Redis CRC-64 (register after some write differs from Crc.tla)" % (ev.get("msg"), ev.get("impl", "harness reference"))
+                what = ev.get("msg") if "msg" in ev else "of %s random bytes written in chunks ending at %s" % (ev.get("n"), ev.get("cuts"))
+                detail = "CRC-64 of message %s by %s is not the Redis CRC-64 (register after some write differs from Crc.tla)" % (what, ev.get("impl", "harness reference"))
             verdict.violation(sig, detail, {"family": "crc", "event": ev})
         notes = [x for x in rows if x["e"] == "note"]
         for n in notes[:5]:
